@@ -515,6 +515,109 @@ fn parts_probe(r: &mut Rng) -> Vec<String> {
     notes
 }
 
+/// C07 at collection level: a growth that the base allocator refuses is reported as an error by
+/// every try_ method, and the collection keeps its length and contents; afterwards it works again.
+mod refusal {
+    use bump_scope::alloc::{AllocError, Allocator, Global};
+    use bump_scope::{Bump, BumpString, BumpVec, MutBumpString, MutBumpVec, MutBumpVecRev};
+    use std::alloc::Layout;
+    use std::cell::Cell;
+    use std::panic::{AssertUnwindSafe, catch_unwind};
+    use std::ptr::NonNull;
+    use verif_harness::Rng;
+
+    thread_local! { static REFUSE: Cell<bool> = const { Cell::new(false) }; }
+
+    #[derive(Clone, Default)]
+    pub struct Moody;
+    unsafe impl Allocator for Moody {
+        fn allocate(&self, layout: Layout) -> Result<NonNull<[u8]>, AllocError> {
+            if REFUSE.with(|r| r.get()) { return Err(AllocError); }
+            Global.allocate(layout)
+        }
+        unsafe fn deallocate(&self, ptr: NonNull<u8>, layout: Layout) { unsafe { Global.deallocate(ptr, layout) } }
+    }
+
+    pub fn refusal_probe(r: &mut Rng) -> Vec<String> {
+        let mut notes = vec![];
+        let n = r.range(1, 12) as usize;
+        let data: Vec<u32> = (0..n as u32).map(|i| 7 * i + 1).collect();
+        let big = r.range(2000, 60000) as usize;     // certainly more than the chunk has left
+        let which = r.below(6);
+        macro_rules! vec_case {
+            ($name:expr, $rev:expr) => {{
+                let bump: Bump<Moody> = Bump::new_in(Moody);
+                let mut v: BumpVec<u32, &Bump<Moody>> = BumpVec::new_in(&bump);
+                for x in &data { v.push(*x); }
+                let before: Vec<u32> = v.iter().copied().collect();
+                REFUSE.with(|r| r.set(true));
+                let extra = vec![9u32; big];
+                let res = catch_unwind(AssertUnwindSafe(|| match which {
+                    0 => v.try_reserve(big).is_err(),
+                    1 => v.try_extend_from_slice_copy(&extra).is_err(),
+                    2 => v.try_resize(n + big, 5).is_err(),
+                    3 => v.try_reserve_exact(big).is_err(),
+                    4 => v.try_extend_from_slice_clone(&extra).is_err(),
+                    _ => v.try_append(extra.clone()).is_err(),
+                }));
+                REFUSE.with(|r| r.set(false));
+                match res {
+                    Err(_) => notes.push(format!("a failed reserve: {} try_ operation {which} panicked when the base allocator refused", $name)),
+                    Ok(false) => notes.push(format!("a failed reserve: {} try_ operation {which} reported success although the base allocator refused", $name)),
+                    Ok(true) => {}
+                }
+                let after: Vec<u32> = v.iter().copied().collect();
+                if after != before { notes.push(format!("a failed reserve: {} changed length or contents after a refused growth ({} -> {} elements)", $name, before.len(), after.len())); }
+                // and it keeps working
+                if v.try_push(4242).is_err() { notes.push(format!("a failed reserve: {} cannot push after a refused growth", $name)); }
+                let mut want = before.clone();
+                if $rev { want.insert(0, 4242) } else { want.push(4242) }
+                if v.iter().copied().collect::<Vec<u32>>() != want { notes.push(format!("a failed reserve: {} has wrong contents after the refusal was over", $name)); }
+            }};
+        }
+        match r.below(3) {
+            0 => vec_case!("BumpVec", false),
+            1 => { let mut b2: Bump<Moody> = Bump::new_in(Moody);
+                   let mut v: MutBumpVec<u32, &mut Bump<Moody>> = MutBumpVec::new_in(&mut b2);
+                   for x in &data { v.push(*x); }
+                   let before: Vec<u32> = v.iter().copied().collect();
+                   REFUSE.with(|r| r.set(true));
+                   let extra = vec![9u32; big];
+                   let res = catch_unwind(AssertUnwindSafe(|| match which % 3 { 0 => v.try_reserve(big).is_err(), 1 => v.try_extend_from_slice_copy(&extra).is_err(), _ => v.try_resize(n + big, 5).is_err() }));
+                   REFUSE.with(|r| r.set(false));
+                   if !matches!(res, Ok(true)) { notes.push(format!("a failed reserve: MutBumpVec try_ operation did not report the refusal as an error ({res:?})")); }
+                   if v.iter().copied().collect::<Vec<u32>>() != before { notes.push("a failed reserve: MutBumpVec changed length or contents after a refused growth".into()); }
+                   if v.try_push(4242).is_err() { notes.push("a failed reserve: MutBumpVec cannot push after a refused growth".into()); } }
+            _ => { let mut b2: Bump<Moody> = Bump::new_in(Moody);
+                   let mut v: MutBumpVecRev<u32, &mut Bump<Moody>> = MutBumpVecRev::new_in(&mut b2);
+                   for x in &data { v.push(*x); }
+                   let before: Vec<u32> = v.iter().copied().collect();
+                   REFUSE.with(|r| r.set(true));
+                   let extra = vec![9u32; big];
+                   let res = catch_unwind(AssertUnwindSafe(|| match which % 2 { 0 => v.try_reserve(big).is_err(), _ => v.try_extend_from_slice_copy(&extra).is_err() }));
+                   REFUSE.with(|r| r.set(false));
+                   if !matches!(res, Ok(true)) { notes.push(format!("a failed reserve: MutBumpVecRev try_ operation did not report the refusal as an error ({res:?})")); }
+                   if v.iter().copied().collect::<Vec<u32>>() != before { notes.push("a failed reserve: MutBumpVecRev changed length or contents after a refused growth".into()); }
+                   if v.try_push(4242).is_err() { notes.push("a failed reserve: MutBumpVecRev cannot push after a refused growth".into()); } }
+        }
+        // strings
+        {
+            let bump: Bump<Moody> = Bump::new_in(Moody);
+            let mut s: BumpString<&Bump<Moody>> = BumpString::new_in(&bump);
+            let text: String = (0..n).map(|i| char::from_u32(0x61 + (i as u32 % 26)).unwrap()).collect();
+            s.push_str(&text);
+            REFUSE.with(|r| r.set(true));
+            let long = "y".repeat(big);
+            let res = catch_unwind(AssertUnwindSafe(|| match which % 4 { 0 => s.try_reserve(big).is_err(), 1 => s.try_push_str(&long).is_err(), 2 => s.try_insert_str(0, &long).is_err(), _ => s.try_replace_range(0..1, &long).is_err() }));
+            REFUSE.with(|r| r.set(false));
+            if !matches!(res, Ok(true)) { notes.push(format!("a failed reserve: BumpString try_ operation did not report the refusal as an error ({res:?})")); }
+            if s.as_str() != text { notes.push("a failed reserve: BumpString changed after a refused growth".into()); }
+            if s.try_push('z').is_err() { notes.push("a failed reserve: BumpString cannot push after a refused growth".into()); }
+        }
+        notes
+    }
+}
+
 fn gen_op(r: &mut Rng, kind: &str, n: usize, next_id: &mut u32) -> Op {
     // indices: in range, boundary, out of range
     let idx = |r: &mut Rng| -> usize { match r.below(8) { 0 => n, 1 => n + 1 + r.below(3) as usize, 2 => 0, _ => if n == 0 { 0 } else { r.below(n as u64) as usize } } };
@@ -656,6 +759,9 @@ fn main() {
     for case in 0..cases {
         if case % 200 == 0 {
             for m in overflow_probe(&mut r) { writeln!(w, "X colls bv reserve :: overflow: {m}").unwrap(); }
+        }
+        if case % 10 == 1 {
+            for m in refusal::refusal_probe(&mut r) { writeln!(w, "X colls refusal probe :: {m}").unwrap(); }
         }
         if case % 10 == 3 {
             for m in growth_probe(&mut r) { writeln!(w, "X colls growth probe :: {m}").unwrap(); }
